@@ -226,6 +226,8 @@ public:
     void clearBestParticles() {
         best_positions_initialized = false;
         std::fill(best_particle_positions.begin(), best_particle_positions.end(), 0.0);
+        std::fill(cache_best_particle_fvals.begin(), cache_best_particle_fvals.end(), std::numeric_limits<double>::max());
+        std::fill(cache_best_particle_inside.begin(), cache_best_particle_inside.end(), false);
     }
     //! \brief Clear the particle swarm cache.
     void clearCache() {
